@@ -1,6 +1,7 @@
 import Pyunicorn.Lemmas.LineDist
 import Pyunicorn.Lemmas.LineDistSeq
 import Pyunicorn.Lemmas.LineDistResample
+import Pyunicorn.Lemmas.LineDistRound
 /-!
 # C08 — RQA line statistics are exact run-length counts of the matrix
 
@@ -499,10 +500,10 @@ private theorem seq_generic (emb : List (List V)) (eps : Rat) (dim : Nat) (mv : 
     (hc : ∀ cs ∈ coords, ∀ c ∈ cs, c.1 < emb.length ∧ c.2 < emb.length) (M : Int → Bool)
     (hM : mv = true → M = accM (missingMask emb)) :
     kernel mv (coords.map (·.map fun (c : Nat × Nat) =>
-        (lineVal (fun _ _ => false) (fun I j => StructC08.metric_supremum I j dim (accE emb))
+        (lineVal vOps (fun _ _ => false) (fun I j => StructC08.metric_supremum vOps I j dim (accE emb))
           (some eps) false true c.1 c.2, M c.1 || M c.2))) emb.length
       = kernel mv (coords.map (·.map fun (c : Nat × Nat) =>
-        (lineVal (accR (fixedThreshold .supremum emb eps mv)) (fun _ _ => none) (some 0) true true
+        (lineVal vOps (accR (fixedThreshold .supremum emb eps mv)) (fun _ _ => none) (some 0) true true
           c.1 c.2, M c.1 || M c.2))) emb.length := by
   apply kernel_map_congr
   intro cs hcs c hcc
@@ -519,51 +520,51 @@ private theorem seq_generic (emb : List (List V)) (eps : Rat) (dim : Nat) (mv : 
 
 theorem seq_vertline_eq_matrix (emb : List (List V)) (eps : Rat) (dim : Nat)
     (hdim : ∀ r ∈ emb, r.length = dim) :
-    StructC08._vertline_dist_sequential emb.length (List.replicate emb.length 0) (accE emb)
+    StructC08._vertline_dist_sequential vOps emb.length (List.replicate emb.length 0) (accE emb)
         (some eps) dim
       = StructC08._vertline_dist emb.length (List.replicate emb.length 0)
           (accR (fixedThreshold .supremum emb eps false)) := by
   unfold StructC08._vertline_dist_sequential StructC08._vertline_dist
   rw [lineDist_kernel, lineDist_kernel]
   simp only [Bool.false_eq_true, if_false]
-  rw [vert_subs emb.length (fun I j => (lineVal (fun _ _ => false)
-        (fun I j => StructC08.metric_supremum I j dim (accE emb)) (some eps) false true I j,
+  rw [vert_subs emb.length (fun I j => (lineVal vOps (fun _ _ => false)
+        (fun I j => StructC08.metric_supremum vOps I j dim (accE emb)) (some eps) false true I j,
         (false || false))),
-    vert_subs emb.length (fun I j => (lineVal (accR (fixedThreshold .supremum emb eps false))
+    vert_subs emb.length (fun I j => (lineVal vOps (accR (fixedThreshold .supremum emb eps false))
         (fun _ _ => none) (some 0) true true I j, (false || false)))]
   exact seq_generic emb eps dim false hdim (vertCoords emb.length) (vertCoords_lt _)
     (fun _ => false) (by simp)
 
 theorem seq_diagline_eq_matrix (emb : List (List V)) (eps : Rat) (dim : Nat)
     (hdim : ∀ r ∈ emb, r.length = dim) :
-    StructC08._diagline_dist_sequential emb.length (List.replicate emb.length 0) (accE emb)
+    StructC08._diagline_dist_sequential vOps emb.length (List.replicate emb.length 0) (accE emb)
         (some eps) dim
       = StructC08._diagline_dist emb.length (List.replicate emb.length 0)
           (accR (fixedThreshold .supremum emb eps false)) := by
   unfold StructC08._diagline_dist_sequential StructC08._diagline_dist
   rw [lineDist_kernel, lineDist_kernel]
   simp only [if_true]
-  rw [diag_subs emb.length (fun I j => (lineVal (fun _ _ => false)
-        (fun I j => StructC08.metric_supremum I j dim (accE emb)) (some eps) false true I j,
+  rw [diag_subs emb.length (fun I j => (lineVal vOps (fun _ _ => false)
+        (fun I j => StructC08.metric_supremum vOps I j dim (accE emb)) (some eps) false true I j,
         (false || false))),
-    diag_subs emb.length (fun I j => (lineVal (accR (fixedThreshold .supremum emb eps false))
+    diag_subs emb.length (fun I j => (lineVal vOps (accR (fixedThreshold .supremum emb eps false))
         (fun _ _ => none) (some 0) true true I j, (false || false)))]
   exact seq_generic emb eps dim false hdim (diagCoords emb.length) (diagCoords_lt _)
     (fun _ => false) (by simp)
 
 theorem seq_vertline_mv_eq_matrix (emb : List (List V)) (eps : Rat) (dim : Nat)
     (hdim : ∀ r ∈ emb, r.length = dim) :
-    StructC08._vertline_dist_sequential_missingvalues emb.length (List.replicate emb.length 0)
+    StructC08._vertline_dist_sequential_missingvalues vOps emb.length (List.replicate emb.length 0)
         (accE emb) (some eps) dim (accM (missingMask emb))
       = StructC08._vertline_dist_missingvalues emb.length (List.replicate emb.length 0)
           (accR (fixedThreshold .supremum emb eps true)) (accM (missingMask emb)) := by
   unfold StructC08._vertline_dist_sequential_missingvalues StructC08._vertline_dist_missingvalues
   rw [lineDist_kernel, lineDist_kernel]
   simp only [Bool.false_eq_true, if_false]
-  rw [vert_subs emb.length (fun I j => (lineVal (fun _ _ => false)
-        (fun I j => StructC08.metric_supremum I j dim (accE emb)) (some eps) false true I j,
+  rw [vert_subs emb.length (fun I j => (lineVal vOps (fun _ _ => false)
+        (fun I j => StructC08.metric_supremum vOps I j dim (accE emb)) (some eps) false true I j,
         (accM (missingMask emb) I || accM (missingMask emb) j))),
-    vert_subs emb.length (fun I j => (lineVal (accR (fixedThreshold .supremum emb eps true))
+    vert_subs emb.length (fun I j => (lineVal vOps (accR (fixedThreshold .supremum emb eps true))
         (fun _ _ => none) (some 0) true true I j,
         (accM (missingMask emb) I || accM (missingMask emb) j)))]
   exact seq_generic emb eps dim true hdim (vertCoords emb.length) (vertCoords_lt _)
@@ -571,17 +572,17 @@ theorem seq_vertline_mv_eq_matrix (emb : List (List V)) (eps : Rat) (dim : Nat)
 
 theorem seq_diagline_mv_eq_matrix (emb : List (List V)) (eps : Rat) (dim : Nat)
     (hdim : ∀ r ∈ emb, r.length = dim) :
-    StructC08._diagline_dist_sequential_missingvalues emb.length (List.replicate emb.length 0)
+    StructC08._diagline_dist_sequential_missingvalues vOps emb.length (List.replicate emb.length 0)
         (accE emb) (some eps) dim (accM (missingMask emb))
       = StructC08._diagline_dist_missingvalues emb.length (List.replicate emb.length 0)
           (accR (fixedThreshold .supremum emb eps true)) (accM (missingMask emb)) := by
   unfold StructC08._diagline_dist_sequential_missingvalues StructC08._diagline_dist_missingvalues
   rw [lineDist_kernel, lineDist_kernel]
   simp only [if_true]
-  rw [diag_subs emb.length (fun I j => (lineVal (fun _ _ => false)
-        (fun I j => StructC08.metric_supremum I j dim (accE emb)) (some eps) false true I j,
+  rw [diag_subs emb.length (fun I j => (lineVal vOps (fun _ _ => false)
+        (fun I j => StructC08.metric_supremum vOps I j dim (accE emb)) (some eps) false true I j,
         (accM (missingMask emb) I || accM (missingMask emb) j))),
-    diag_subs emb.length (fun I j => (lineVal (accR (fixedThreshold .supremum emb eps true))
+    diag_subs emb.length (fun I j => (lineVal vOps (accR (fixedThreshold .supremum emb eps true))
         (fun _ _ => none) (some 0) true true I j,
         (accM (missingMask emb) I || accM (missingMask emb) j)))]
   exact seq_generic emb eps dim true hdim (diagCoords emb.length) (diagCoords_lt _)
@@ -590,7 +591,7 @@ theorem seq_diagline_mv_eq_matrix (emb : List (List V)) (eps : Rat) (dim : Nat)
 /-- sequential vertical-line histogram = run-length count of the stored matrix's rows -/
 theorem seq_vertline_runs (emb : List (List V)) (eps : Rat) (dim : Nat)
     (hdim : ∀ r ∈ emb, r.length = dim) :
-    StructC08._vertline_dist_sequential emb.length (List.replicate emb.length 0) (accE emb)
+    StructC08._vertline_dist_sequential vOps emb.length (List.replicate emb.length 0) (accE emb)
         (some eps) dim
       = histOfRuns (rowsOf (fixedThreshold .supremum emb eps false) true emb.length)
           emb.length := by
@@ -598,7 +599,7 @@ theorem seq_vertline_runs (emb : List (List V)) (eps : Rat) (dim : Nat)
 
 theorem seq_diagline_runs (emb : List (List V)) (eps : Rat) (dim : Nat)
     (hdim : ∀ r ∈ emb, r.length = dim) :
-    StructC08._diagline_dist_sequential emb.length (List.replicate emb.length 0) (accE emb)
+    StructC08._diagline_dist_sequential vOps emb.length (List.replicate emb.length 0) (accE emb)
         (some eps) dim
       = histOfRuns (diagsOf (fixedThreshold .supremum emb eps false) emb.length) emb.length := by
   rw [seq_diagline_eq_matrix emb eps dim hdim, gen_diagline_runs]
@@ -607,7 +608,7 @@ theorem seq_diagline_runs (emb : List (List V)) (eps : Rat) (dim : Nat)
 its numerator is the number of recurrence points of the matrix that is never stored -/
 theorem seq_recurrence_rate_num (emb : List (List V)) (eps : Rat) (dim : Nat)
     (hdim : ∀ r ∈ emb, r.length = dim) :
-    wsum (StructC08._vertline_dist_sequential emb.length (List.replicate emb.length 0) (accE emb)
+    wsum (StructC08._vertline_dist_sequential vOps emb.length (List.replicate emb.length 0) (accE emb)
         (some eps) dim)
       = countIn (rowsOf (fixedThreshold .supremum emb eps false) true emb.length) := by
   rw [seq_vertline_eq_matrix emb eps dim hdim, gen_vertline_eq, vert_accounts_black]
@@ -718,6 +719,206 @@ example : UnitDraws [(1/2, 0), (0, 1/2), (3/4, 1/2)] := by
   rcases hu with rfl | rfl | rfl <;> norm_num
 
 end Bootstrap
+
+/-! ## Round 4 — the two storage modes in double arithmetic
+
+The kernels regenerated from `numerics.pyx` are now one text over a structure of float operations
+(`FOps`): `vOps` is the exact arithmetic of rounds 1–3, `xOps rnd` are IEEE doubles with `+inf`,
+`-inf`, NaN and a rounding `rnd` applied to every finite `|a - b|`.  The matrix mode's distances
+(`_supremum_distance_matrix_rp`) are regenerated from the source as well. -/
+section Doubles
+open Pyunicorn.Generated
+
+private theorem seqX_generic (rnd : Rat → Rat) (h0 : rnd 0 = 0) (emb : List (List X)) (eps : X)
+    (dim : Nat) (mv : Bool) (coords : List (List (Nat × Nat)))
+    (hc : ∀ cs ∈ coords, ∀ c ∈ cs, c.1 < emb.length ∧ c.2 < emb.length) (M : Int → Bool)
+    (hM : mv = true → M = accM (missingMaskX emb)) :
+    kernel mv (coords.map (·.map fun (c : Nat × Nat) =>
+        (lineVal (xOps rnd) (fun _ _ => false)
+          (fun I j => StructC08.metric_supremum (xOps rnd) I j dim (accX emb))
+          eps false true c.1 c.2, M c.1 || M c.2))) emb.length
+      = kernel mv (coords.map (·.map fun (c : Nat × Nat) =>
+        (lineVal vOps (accR (fixedThresholdX rnd emb eps dim mv)) (fun _ _ => none) (some 0) true true
+          c.1 c.2, M c.1 || M c.2))) emb.length := by
+  apply kernel_map_congr
+  intro cs hcs c hcc
+  refine ⟨rfl, ?_⟩
+  intro hmiss
+  have hlt := hc cs hcs c hcc
+  simp only [lineVal, Bool.false_eq_true, if_false, if_true, accR, Int.toNat_natCast]
+  congr 1
+  apply nearX_eq_matrix rnd h0 emb eps dim mv c.1 c.2 hlt.1 hlt.2
+  intro hmv
+  have h1 := hmiss hmv
+  rw [hM hmv] at h1
+  simpa [accM] using h1
+
+/-- **sequential = matrix mode in double arithmetic** (vertical lines): for every rounding of the
+differences with `rnd 0 = 0`, every embedding whose samples are finite, `+inf`, `-inf` or NaN, every
+threshold (finite, infinite, NaN) and every size. -/
+theorem seqX_vertline_eq_matrix (rnd : Rat → Rat) (h0 : rnd 0 = 0) (emb : List (List X)) (eps : X)
+    (dim : Nat) :
+    StructC08._vertline_dist_sequential (xOps rnd) emb.length (List.replicate emb.length 0)
+        (accX emb) eps dim
+      = StructC08._vertline_dist emb.length (List.replicate emb.length 0)
+          (accR (fixedThresholdX rnd emb eps dim false)) := by
+  unfold StructC08._vertline_dist_sequential StructC08._vertline_dist
+  rw [lineDist_kernel, lineDist_kernel]
+  simp only [Bool.false_eq_true, if_false]
+  rw [vert_subs emb.length (fun I j => (lineVal (xOps rnd) (fun _ _ => false)
+        (fun I j => StructC08.metric_supremum (xOps rnd) I j dim (accX emb)) eps false true I j,
+        (false || false))),
+    vert_subs emb.length (fun I j => (lineVal vOps (accR (fixedThresholdX rnd emb eps dim false))
+        (fun _ _ => none) (some 0) true true I j, (false || false)))]
+  exact seqX_generic rnd h0 emb eps dim false (vertCoords emb.length) (vertCoords_lt _)
+    (fun _ => false) (by simp)
+
+theorem seqX_diagline_eq_matrix (rnd : Rat → Rat) (h0 : rnd 0 = 0) (emb : List (List X)) (eps : X)
+    (dim : Nat) :
+    StructC08._diagline_dist_sequential (xOps rnd) emb.length (List.replicate emb.length 0)
+        (accX emb) eps dim
+      = StructC08._diagline_dist emb.length (List.replicate emb.length 0)
+          (accR (fixedThresholdX rnd emb eps dim false)) := by
+  unfold StructC08._diagline_dist_sequential StructC08._diagline_dist
+  rw [lineDist_kernel, lineDist_kernel]
+  simp only [if_true]
+  rw [diag_subs emb.length (fun I j => (lineVal (xOps rnd) (fun _ _ => false)
+        (fun I j => StructC08.metric_supremum (xOps rnd) I j dim (accX emb)) eps false true I j,
+        (false || false))),
+    diag_subs emb.length (fun I j => (lineVal vOps (accR (fixedThresholdX rnd emb eps dim false))
+        (fun _ _ => none) (some 0) true true I j, (false || false)))]
+  exact seqX_generic rnd h0 emb eps dim false (diagCoords emb.length) (diagCoords_lt _)
+    (fun _ => false) (by simp)
+
+theorem seqX_vertline_mv_eq_matrix (rnd : Rat → Rat) (h0 : rnd 0 = 0) (emb : List (List X))
+    (eps : X) (dim : Nat) :
+    StructC08._vertline_dist_sequential_missingvalues (xOps rnd) emb.length
+        (List.replicate emb.length 0) (accX emb) eps dim (accM (missingMaskX emb))
+      = StructC08._vertline_dist_missingvalues emb.length (List.replicate emb.length 0)
+          (accR (fixedThresholdX rnd emb eps dim true)) (accM (missingMaskX emb)) := by
+  unfold StructC08._vertline_dist_sequential_missingvalues StructC08._vertline_dist_missingvalues
+  rw [lineDist_kernel, lineDist_kernel]
+  simp only [Bool.false_eq_true, if_false]
+  rw [vert_subs emb.length (fun I j => (lineVal (xOps rnd) (fun _ _ => false)
+        (fun I j => StructC08.metric_supremum (xOps rnd) I j dim (accX emb)) eps false true I j,
+        (accM (missingMaskX emb) I || accM (missingMaskX emb) j))),
+    vert_subs emb.length (fun I j => (lineVal vOps (accR (fixedThresholdX rnd emb eps dim true))
+        (fun _ _ => none) (some 0) true true I j,
+        (accM (missingMaskX emb) I || accM (missingMaskX emb) j)))]
+  exact seqX_generic rnd h0 emb eps dim true (vertCoords emb.length) (vertCoords_lt _)
+    (accM (missingMaskX emb)) (fun _ => rfl)
+
+theorem seqX_diagline_mv_eq_matrix (rnd : Rat → Rat) (h0 : rnd 0 = 0) (emb : List (List X))
+    (eps : X) (dim : Nat) :
+    StructC08._diagline_dist_sequential_missingvalues (xOps rnd) emb.length
+        (List.replicate emb.length 0) (accX emb) eps dim (accM (missingMaskX emb))
+      = StructC08._diagline_dist_missingvalues emb.length (List.replicate emb.length 0)
+          (accR (fixedThresholdX rnd emb eps dim true)) (accM (missingMaskX emb)) := by
+  unfold StructC08._diagline_dist_sequential_missingvalues StructC08._diagline_dist_missingvalues
+  rw [lineDist_kernel, lineDist_kernel]
+  simp only [if_true]
+  rw [diag_subs emb.length (fun I j => (lineVal (xOps rnd) (fun _ _ => false)
+        (fun I j => StructC08.metric_supremum (xOps rnd) I j dim (accX emb)) eps false true I j,
+        (accM (missingMaskX emb) I || accM (missingMaskX emb) j))),
+    diag_subs emb.length (fun I j => (lineVal vOps (accR (fixedThresholdX rnd emb eps dim true))
+        (fun _ _ => none) (some 0) true true I j,
+        (accM (missingMaskX emb) I || accM (missingMaskX emb) j)))]
+  exact seqX_generic rnd h0 emb eps dim true (diagCoords emb.length) (diagCoords_lt _)
+    (accM (missingMaskX emb)) (fun _ => rfl)
+
+/-- hence, in double arithmetic too, the sequential histograms are run-length counts of the
+matrix that the matrix mode would store -/
+theorem seqX_vertline_runs (rnd : Rat → Rat) (h0 : rnd 0 = 0) (emb : List (List X)) (eps : X)
+    (dim : Nat) :
+    StructC08._vertline_dist_sequential (xOps rnd) emb.length (List.replicate emb.length 0)
+        (accX emb) eps dim
+      = histOfRuns (rowsOf (fixedThresholdX rnd emb eps dim false) true emb.length) emb.length := by
+  rw [seqX_vertline_eq_matrix rnd h0, gen_vertline_runs]
+
+theorem seqX_diagline_runs (rnd : Rat → Rat) (h0 : rnd 0 = 0) (emb : List (List X)) (eps : X)
+    (dim : Nat) :
+    StructC08._diagline_dist_sequential (xOps rnd) emb.length (List.replicate emb.length 0)
+        (accX emb) eps dim
+      = histOfRuns (diagsOf (fixedThresholdX rnd emb eps dim false) emb.length) emb.length := by
+  rw [seqX_diagline_eq_matrix rnd h0, gen_diagline_runs]
+
+/-- **the exact model of rounds 1–3 is the instance `rnd = id`**: on data without infinities the
+double predicate with exact differences is C07's predicate -/
+theorem exact_is_instance (I j dim : Int) (E : Int → Int → Recurrence.V) (eps : Recurrence.V) :
+    (xOps id).lt (StructC08.metric_supremum (xOps id) I j dim (fun a b => toX (E a b))) (toX eps)
+      = (vOps).lt (StructC08.metric_supremum vOps I j dim E) eps := by
+  rw [metric_toX]
+  exact toX_lt _ _
+
+/-- **rounding never invents a recurrence**: for every monotone rounding that leaves the threshold
+fixed (`eps` is a double), finite samples: if the double predicate holds, the exact one holds. -/
+theorem round_subset (rnd : Rat → Rat) (hmono : MonoRnd rnd) (I j dim : Int)
+    (e : Int → Int → Rat) (t : Rat) (ht : rnd t = t)
+    (h : (xOps rnd).lt (StructC08.metric_supremum (xOps rnd) I j dim (fun a b => .fin (e a b)))
+      (.fin t) = true) :
+    (xOps id).lt (StructC08.metric_supremum (xOps id) I j dim (fun a b => .fin (e a b))) (.fin t)
+      = true := by
+  rw [near_fin_iff] at h ⊢
+  refine ⟨h.1, fun l hl => ?_⟩
+  have h2 := h.2 l hl
+  by_contra hcon
+  have : t ≤ adiff (e I l) (e j l) := not_lt.mp hcon
+  have := hmono _ _ this
+  rw [ht] at this
+  exact absurd h2 (not_lt.mpr this)
+
+/-- … and it changes nothing where the differences are representable (float32 samples whose
+exponents are at most 29 binades apart; the dyadic data of the correspondence) -/
+theorem round_exact (rnd : Rat → Rat) (I j dim : Int) (e : Int → Int → Rat)
+    (hex : ∀ l : Nat, l < dim.toNat → rnd (adiff (e I l) (e j l)) = adiff (e I l) (e j l))
+    (t : Rat) :
+    (xOps rnd).lt (StructC08.metric_supremum (xOps rnd) I j dim (fun a b => .fin (e a b))) (.fin t)
+      = (xOps id).lt (StructC08.metric_supremum (xOps id) I j dim (fun a b => .fin (e a b)))
+          (.fin t) := by
+  rw [Bool.eq_iff_iff, near_fin_iff, near_fin_iff]
+  constructor
+  · rintro ⟨h1, h2⟩; exact ⟨h1, fun l hl => by have := h2 l hl; rw [hex l hl] at this; exact this⟩
+  · rintro ⟨h1, h2⟩; exact ⟨h1, fun l hl => by rw [hex l hl]; exact h2 l hl⟩
+
+/-- **infinite samples**: if in some coordinate exactly one of the two samples is infinite, or
+they are infinities of opposite sign (`|a - b| = +inf`), the pair is not recurrent for *any*
+threshold, `+inf` included (`inf < inf` is false); by `seqX_*_eq_matrix` both modes agree on it. -/
+theorem inf_not_recurrent (rnd : Rat → Rat) (I j : Int) (dim : Nat) (E : Int → Int → X) (eps : X)
+    (l : Nat) (hl : l < dim) (hinf : X.absdiff rnd (E I l) (E j l) = .pinf) :
+    (xOps rnd).lt (StructC08.metric_supremum (xOps rnd) I j dim E) eps = false := by
+  have : StructC08.metric_supremum (xOps rnd) I j dim E = .pinf := by
+    unfold StructC08.metric_supremum
+    exact supFoldX_pinf _ (fun l : Nat => X.absdiff rnd (E I l) (E j l)) (.fin 0)
+      (by intro h; cases h) (Or.inr ⟨l, by simpa using hl, hinf⟩)
+  rw [this]
+  exact X.lt_pinf_left eps
+
+/-- two samples that are `+inf` in the same coordinate: `inf - inf` is NaN and that coordinate is
+skipped, exactly like a NaN coordinate (here: nothing else differs, distance `0`) -/
+example : StructC08.metric_supremum (xOps id) 0 1 2
+    (accX [[.pinf, .fin 1], [.pinf, .fin 1]]) = .fin 0 := by decide +kernel
+example : X.absdiff id .pinf (.fin 3) = .pinf ∧ X.absdiff id .ninf .pinf = .pinf ∧
+    X.absdiff id .ninf .ninf = .nan := by decide
+
+/-- non-vacuity of `round_subset` and properness of the inclusion: rounding up to integers is
+monotone and fixes the threshold `1`; the distance `1/2` becomes `1`, so the pair is recurrent
+exactly but not after rounding -/
+def rndCeil (q : Rat) : Rat := (q.ceil : Rat)
+
+theorem rndCeil_mono : MonoRnd rndCeil := by
+  intro a b h
+  simp only [rndCeil]
+  have : a.ceil ≤ b.ceil := by
+    rw [Rat.ceil_le_iff]; exact le_trans h Rat.le_ceil
+  exact_mod_cast this
+
+example : rndCeil 1 = 1 ∧ rndCeil 0 = 0 := by decide +kernel
+example : (xOps rndCeil).lt (StructC08.metric_supremum (xOps rndCeil) 0 1 1
+      (fun a _ => .fin (if a = 0 then 0 else 1/2))) (.fin 1) = false ∧
+    (xOps id).lt (StructC08.metric_supremum (xOps id) 0 1 1
+      (fun a _ => .fin (if a = 0 then 0 else 1/2))) (.fin 1) = true := by decide +kernel
+
+end Doubles
 
 /-! ### non-vacuity -/
 example : (scalars 2 [3, 2, 0, 1]).ratioNum = 8 ∧ (scalars 2 [3, 2, 0, 1]).ratioDen = 11 ∧
